@@ -236,6 +236,91 @@ func (workingMem *WorkingMemory) Clone(cloneTable *pkg.CloneTable) (*WorkingMemo
 	return nil, fmt.Errorf("clone not equals the origin")
 }
 
+// variableSet is a set of variable nodes.
+type variableSet map[*Variable]struct{}
+
+// collectVariables adds the variables this expression reaches through its operands.
+func (e *Expression) collectVariables(into variableSet) {
+	if e == nil {
+
+		return
+	}
+	e.LeftExpression.collectVariables(into)
+	e.RightExpression.collectVariables(into)
+	e.SingleExpression.collectVariables(into)
+	e.ExpressionAtom.collectVariables(into)
+}
+
+// collectVariables adds the variables this atom reaches: its own, those of the atom it continues, of the arguments of
+// its call and of its selector.
+func (e *ExpressionAtom) collectVariables(into variableSet) {
+	if e == nil {
+
+		return
+	}
+	e.Variable.collectVariables(into)
+	e.ExpressionAtom.collectVariables(into)
+	e.FunctionCall.collectVariables(into)
+	e.ArrayMapSelector.collectVariables(into)
+}
+
+// collectVariables adds this variable, the variables it is a member or element of, and those of its selector.
+func (e *Variable) collectVariables(into variableSet) {
+	if e == nil {
+
+		return
+	}
+	if _, seen := into[e]; seen {
+
+		return
+	}
+	into[e] = struct{}{}
+	e.Variable.collectVariables(into)
+	e.ArrayMapSelector.collectVariables(into)
+}
+
+// collectVariables adds the variables of the arguments of this call.
+func (e *FunctionCall) collectVariables(into variableSet) {
+	if e == nil {
+
+		return
+	}
+	e.ArgumentList.collectVariables(into)
+}
+
+// collectVariables adds the variables of every argument.
+func (e *ArgumentList) collectVariables(into variableSet) {
+	if e == nil {
+
+		return
+	}
+	for _, argument := range e.Arguments {
+		argument.collectVariables(into)
+	}
+}
+
+// collectVariables adds the variables of the selector expression.
+func (e *ArrayMapSelector) collectVariables(into variableSet) {
+	if e == nil {
+
+		return
+	}
+	e.Expression.collectVariables(into)
+}
+
+// registeredVariable returns the instance this working memory keeps for the given variable. The nodes of a
+// knowledge base hold the registered instances themselves, which every variable index has an entry for; the
+// registry is asked only for an instance that is not one of them.
+func (workingMem *WorkingMemory) registeredVariable(variable *Variable) (*Variable, bool) {
+	if _, ok := workingMem.expressionVariableMap[variable]; ok {
+
+		return variable, true
+	}
+	registered, ok := workingMem.variableSnapshotMap[variable.GetSnapshot()]
+
+	return registered, ok
+}
+
 // IndexVariables will index all expression and expression atoms that contains a speciffic variable name
 func (workingMem *WorkingMemory) IndexVariables() {
 	if AstLog.Level <= logger.DebugLevel {
@@ -249,22 +334,33 @@ func (workingMem *WorkingMemory) IndexVariables() {
 	workingMem.expressionVariableMap = make(map[*Variable][]*Expression)
 	workingMem.expressionAtomVariableMap = make(map[*Variable][]*ExpressionAtom)
 
-	for varSnapshot, variable := range workingMem.variableSnapshotMap {
+	for _, variable := range workingMem.variableSnapshotMap {
 		if _, ok := workingMem.expressionVariableMap[variable]; ok == false {
 			workingMem.expressionVariableMap[variable] = make([]*Expression, 0)
 		}
 		if _, ok := workingMem.expressionAtomVariableMap[variable]; ok == false {
 			workingMem.expressionAtomVariableMap[variable] = make([]*ExpressionAtom, 0)
 		}
+	}
 
-		for exprSnapshot, expr := range workingMem.expressionSnapshotMap {
-			if strings.Contains(exprSnapshot, varSnapshot) {
-				workingMem.expressionVariableMap[variable] = append(workingMem.expressionVariableMap[variable], expr)
+	// A node is indexed under every variable it reaches through its children. The snapshot of a node embeds the
+	// snapshots of its children, so this is what searching every variable's snapshot in every node's stood for; the search
+	// took time of the third power of the nesting depth of selectors (a[a[a[...]]]).
+	for _, expr := range workingMem.expressionSnapshotMap {
+		below := make(variableSet)
+		expr.collectVariables(below)
+		for variable := range below {
+			if registered, ok := workingMem.registeredVariable(variable); ok {
+				workingMem.expressionVariableMap[registered] = append(workingMem.expressionVariableMap[registered], expr)
 			}
 		}
-		for exprAtmSnapshot, exprAtm := range workingMem.expressionAtomSnapshotMap {
-			if strings.Contains(exprAtmSnapshot, varSnapshot) {
-				workingMem.expressionAtomVariableMap[variable] = append(workingMem.expressionAtomVariableMap[variable], exprAtm)
+	}
+	for _, exprAtm := range workingMem.expressionAtomSnapshotMap {
+		below := make(variableSet)
+		exprAtm.collectVariables(below)
+		for variable := range below {
+			if registered, ok := workingMem.registeredVariable(variable); ok {
+				workingMem.expressionAtomVariableMap[registered] = append(workingMem.expressionAtomVariableMap[registered], exprAtm)
 			}
 		}
 	}
